@@ -5,6 +5,7 @@ import shutil
 import sys
 
 import cfggen
+import ext.c13fx as fx13
 import ext.c13x as x13
 import flow
 import gen
@@ -53,7 +54,15 @@ FINISH = dict(
          "TOML octal literals half of the time, extensions / file_name_format in a third, [global] only in an included "
          "file (main has none) in a quarter, no [global] table anywhere (real read_cnf + the real getters: 0644 / 0600, no "
          "owner; real writes with what the getters answer); the FileManager the start-up path gives to the ACCOUNT is used "
-         "for real writes and judged against the configured values like the certificate's.",
+         "for real writes and judged against the configured values like the certificate's. "
+         "File hooks that ACT on the file (py/ext/c13fx.py): real commands on {{ file_path }} — mv to .bak (archive hook on "
+         "file-pre-edit), rm, install -m/-o/-g (replace by / create another file), cp + mv, chmod, false — as pre and post "
+         "hooks of first creations and rewrites of the three file types, as root and not; inode + mode + owner recorded "
+         "before the first pre hook, after the last pre hook (what open(2) finds), before the first post hook and after the "
+         "last one; compared exactly with StorageFx.runHistoryFx; 'created' is decided at open time (absent, or another inode "
+         "than the write left) and judged by Spec.C13.holdsFx on the file the post hooks see (and the final one when no post "
+         "hook acts). Daemon with the archive hook: one account on two endpoints, a certificate good for a day: the account, "
+         "key and certificate files are re-created after the hook moved the old ones away.",
 )
 
 UMASKS = [0o000, 0o022, 0o027, 0o077, 0o777]
@@ -434,6 +443,8 @@ def daemon_part(ctx, w, defaults, scratch, helper, ids):
         if os.geteuid() != 0:
             g = {k: v for k, v in g.items() if k.endswith("mode")}
         judge_daemon(ctx, w, defaults, os.path.join(scratch, "d%d" % n), helper, g, um)
+        if n > 0 or not ctx.quick():
+            fx13.judge_daemon(ctx, sys.modules[__name__], w, defaults, os.path.join(scratch, "dfx%d" % n), helper, g, um)
 
 
 def judge_daemon(ctx, w, defaults, root, helper, g, um):
@@ -547,6 +558,7 @@ def run(ctx):
         config_part(ctx, w, defaults, os.path.join(scratch, "cfg"), ids)
         x13.noglobal_part(ctx, sys.modules[__name__], w, defaults, os.path.join(scratch, "noglobal"))
         x13.nonroot_part(ctx, sys.modules[__name__], w, defaults, os.path.join(scratch, "nonroot"))
+        fx13.fx_part(ctx, sys.modules[__name__], x13, w, defaults, os.path.join(scratch, "fx"), users, groups)
         daemon_part(ctx, w, defaults, os.path.join(scratch, "daemon"), helper, ids)
     finally:
         helper.close()
@@ -612,6 +624,10 @@ def replay(ctx):
         defaults = vlib.model([{"op": "storage_defaults"}])[0]
         if obj.get("kind") == "daemon":
             judge_daemon(ctx, w, defaults, os.path.join(scratch, "d"), helper, obj["global"], obj["umask"])
+        elif obj.get("kind") == "daemon-fx":
+            fx13.judge_daemon(ctx, sys.modules[__name__], w, defaults, os.path.join(scratch, "dfx"), helper, obj["global"], obj["umask"])
+        elif obj.get("kind") == "fx-history":
+            fx13.replay_history(ctx, sys.modules[__name__], x13, w, defaults, os.path.join(scratch, "fx"), obj["hist"])
         elif obj.get("kind") == "config":
             replay_config(ctx, w, defaults, scratch, obj["global"], obj.get("layout"))
         elif obj.get("kind") == "noglobal":
